@@ -350,6 +350,10 @@ def run(prog, rep, tier):
     if check_derived_refresh(prog, rep) < 2:
         raise AnalysisError('GEOM-derived-refresh: writers of HelicalLattice._N_cells not found')
     check_box_corner(prog, rep)
+    rep.rule('GEOM-query-pure', 'the query ordering() leaves the index maps of the lattice unchanged '
+             '(temporary stores are restored)')
+    if check_query_pure(prog, rep) < 5:
+        raise AnalysisError('GEOM-query-pure: fewer than 5 functions in the closures of ordering()')
     rep.rule('GEOM-shift-rewrap / GEOM-axes-normalised', 'shifted boundaries: wrapped coordinate '
              'recomputed after the shift in both coupling enumerations; axes normalised before the '
              'descending expansion of mps2lat_values')
@@ -759,4 +763,71 @@ def check_axes_normalised(prog, rep):
                               'front of every positive one although it may denote a later axis, '
                               'which then is expanded after an earlier one shifted it' %
                               unparse(lp.iter)[:50], lp.lineno)
+    return n
+
+
+# ------------------------------------------------------------------ GEOM-query-pure
+def check_query_pure(prog, rep):
+    """GEOM-query-pure: `ordering(order)` only RETURNS a possible order; the index maps of the
+    lattice object (`_perm`, `_order`, `_mps2lat_vals_idx`, ...) must be the same afterwards. In
+    the call closure of every `ordering` method (self-calls, depth 2) an attribute store is allowed
+    only as a TEMPORARY one: the old value was saved into a local before (`b = self.A` /
+    `getattr(self, 'A', ..)`) and a later statement of the same function stores it back
+    (`self.A = b`)."""
+    ct = prog.classtable()
+    base = ct.get('Lattice')
+    n = 0
+    seen = set()
+    for ci in ct.cone(base):
+        owner, f0 = ct.resolve_method(ci, 'ordering')
+        if f0 is None:
+            continue
+        todo = [(owner, f0, 0)]
+        while todo:
+            own, f, d = todo.pop()
+            if (id(f)) in seen:
+                continue
+            seen.add(id(f))
+            n += 1
+            backups = {}
+            for st in stmts_of(f):
+                if isinstance(st, ast.Assign) and isinstance(st.targets[0], ast.Name):
+                    v = st.value
+                    if is_self_attr(v):
+                        backups[st.targets[0].id] = (v.attr, st.lineno)
+                    elif isinstance(v, ast.Call) and call_name(v) == 'getattr' and len(
+                            v.args) >= 2 and unparse(v.args[0]) == 'self' and isinstance(
+                                v.args[1], ast.Constant):
+                        backups[st.targets[0].id] = (v.args[1].value, st.lineno)
+            for st in stmts_of(f):
+                if not isinstance(st, ast.Assign):
+                    continue
+                for t in st.targets:
+                    if not is_self_attr(t):
+                        continue
+                    if isinstance(st.value, ast.Name) and backups.get(st.value.id, (None, ))[0] == \
+                            t.attr:
+                        continue       # the restoring store itself
+                    restored = any(
+                        isinstance(s2, ast.Assign) and s2.lineno > st.lineno and any(
+                            is_self_attr(t2, t.attr) for t2 in s2.targets) and isinstance(
+                                s2.value, ast.Name) and backups.get(s2.value.id, (None, 0))[0] ==
+                        t.attr and backups[s2.value.id][1] < st.lineno for s2 in stmts_of(f))
+                    rep.instance('GEOM-query-pure', {'function': '%s.%s' % (own.name, f.name),
+                                                     'store': key_text(st)[:50],
+                                                     'restored': restored})
+                    if not restored:
+                        rep.violation('GEOM-query-pure', own.module, '%s.%s' % (own.name, f.name),
+                                      'query-writes:' + t.attr,
+                                      '`%s` changes the lattice inside the query ordering() and '
+                                      'the old value is not stored back: afterwards the index '
+                                      'maps (lat2mps_idx, possible_couplings) answer for another '
+                                      'lattice' % key_text(st)[:50], st.lineno)
+            if d < 2:
+                for c in ast.walk(f):
+                    if isinstance(c, ast.Call) and isinstance(c.func, ast.Attribute) and \
+                            unparse(c.func.value) == 'self':
+                        o2, g = ct.resolve_method(ci, c.func.attr)
+                        if g is not None and c.func.attr.startswith('_'):
+                            todo.append((o2, g, d + 1))
     return n
